@@ -4,15 +4,15 @@ import json, subprocess
 
 NOTES = {
  "C01": ("Lean proof that the engine model (engOp) equals the reference semantics (Sem.eval) on the fragment selectors / range functions / unary / parentheses for all inputs, plus engOp_err; the remaining operators are covered per operator in C04-C06. Engine<->model and Prometheus<->Spec are tied by differential correspondence on generated composite queries.", "partial: composition theorem over a fragment; binary-matching and duplicate-labelset deviations are known findings"),
- "C02": ("Lean proofs: selector operator = reference selection (all storages/lookbacks/offsets); refinement theorem: the engine's selectPoint over an operational model of Prometheus' MemoizedSeriesIterator equals the declarative selection along every non-decreasing sequence of step times; lookback boundary lemmas, cursor enumerates the grid for every step count, contiguous sharding covers for every shard count, coalesce denotes the union for every merge order.", "the iterator model is tied to the real MemoizedSeriesIterator + selectPoint by a kernel-level correspondence (verif-tag export)"),
- "C03": ("Lean proofs: matrix-selector operator = reference range-function evaluation; refinement theorems for the per-series scan as matrixSelector.Next drives it - selectPoints over an operational model of BufferedSeriesIterator (ring eviction, buffer reset, ReduceDelta to min(range, step) after every step, reused previousPoints slice) returns exactly the window's non-stale samples for every range, step and step count - and for the bare kernel along any strictly increasing window ends; window characterisation; kernels are shared Lean definitions validated against both engines.", "the iterator model is tied to the real BufferedSeriesIterator + selectPoints (+ ReduceDelta) by a kernel-level correspondence (verif-tag export)"),
- "C04": ("Lean proofs about grouping labels (by/without, name dropped), k parameter handling, one output per group, engine accumulators = reference reductions (sum/avg under stated laws), aggregation over the Theorem-B fragment equals the reference up to output order; operational models of the reused accumulators (every state left by earlier batches, every aggregation: each step's output is the per-step reduction) and of the topk/bottomk heap (keeps a sub-multiset of size min(k, n) whose members are not below any dropped sample, for NaN-free groups over a strict weak order).", "accumulators tied by a kernel-level correspondence (verif-tag export); NaN handling and ties of the heap by correspondence"),
+ "C02": ("Lean proofs: selector operator = reference selection (all storages/lookbacks/offsets); refinement theorem: the engine's selectPoint over an operational model of Prometheus' MemoizedSeriesIterator equals the declarative selection along every non-decreasing sequence of step times; the operator's own batching (every series through all the steps of a batch, iterators threaded through the batches) yields, for every batch partition of the grid, the stream of per-step selections; lookback boundary lemmas, cursor enumerates the grid for every step count, contiguous sharding covers for every shard count, coalesce denotes the union for every merge order.", "the iterator model is tied to the real MemoizedSeriesIterator + selectPoint by a kernel-level correspondence (verif-tag export)"),
+ "C03": ("Lean proofs: matrix-selector operator = reference range-function evaluation; refinement theorems for the per-series scan as matrixSelector.Next drives it - selectPoints over an operational model of BufferedSeriesIterator (ring eviction, buffer reset, ReduceDelta to min(range, step) after every step, reused previousPoints slice) returns exactly the window's non-stale samples for every range, step and step count - and for the bare kernel along any strictly increasing window ends; the operator's batched stream (per-series state with ring delta and previousPoints threaded through batches of any sizes) is the stream of per-step range-function evaluations; window characterisation; kernels are shared Lean definitions validated against both engines.", "the iterator model is tied to the real BufferedSeriesIterator + selectPoints (+ ReduceDelta) by a kernel-level correspondence (verif-tag export)"),
+ "C04": ("Lean proofs about grouping labels (by/without, name dropped), k parameter handling, one output per group, engine accumulators = reference reductions (sum from an empty group under 0+v=v, avg's running mean under the counting laws), aggregation over the Theorem-B fragment equals the reference up to output order for every accumulator that is the reference reduction on non-empty groups; operational models of the reused accumulators (every state left by earlier batches, every aggregation: each step's output is the per-step reduction) and of the topk/bottomk heap (keeps a sub-multiset of size min(k, n) whose members are not below any dropped sample, for NaN-free groups over a strict weak order).", "accumulators tied by a kernel-level correspondence (verif-tag export); NaN handling and ties of the heap by correspondence"),
  "C05": ("Lean proofs for vector-scalar operators and the reference matching semantics; operational model of the reused timestamp-tagged output table of binary/table.go with a refinement theorem (= a fresh table per step along strictly increasing step timestamps); counterexample theorems exhibiting the engine's join deviation (known finding KF-binary-matching).", "partial: the pinned vector-vector operator violates the property (recorded findings); table model tied by a kernel-level correspondence (verif-tag export)"),
  "C06": ("Lean proofs: pointwise function operators commute with denotation, scalar(), clamp, step-invariant evaluation in reference and engine, time()/literals per step.", "math functions are uninterpreted operations of the value algebra"),
  "C07": ("Lean proofs: leaf cursor protocol enumerates exactly the grid for every step count and batch size, batches bounded, instant = one step, evalGrid is pointwise over the grid (append law).", "range-vs-instant equality of the whole engine is additionally checked on the real engine"),
  "C08": ("Lean proof by functional induction over newOperator's model that plan construction fails only with 'unsupported' (position-closed); dispatch tables pinned to regenerated facts; the model's nativeness decision is compared with the real engine's for every query of an exhaustive vocabulary x position enumeration, which also checks counters, fallback results and that no natively accepted query fails internally.", "statelessness of plan construction w.r.t. storage is checked by the lifecycle oracle"),
  "C09": ("Lean proofs: sorting matchers, select merging (whole-matcher comparison, filters on absent labels) and matcher propagation preserve the selected series for every regex table and label set; the propagation rewrite applies only where its soundness hypothesis is the matching rule (no on, no label list, one-to-one, no comparison). The optimizer model is compared with the real optimizers on an exhaustive matcher alphabet, on merged/pinned/function-wrapped twins and with a debug writer attached.", "planner glue is tied by correspondence"),
- "C10": ("Lean proofs of the union algebra (selection, range functions, pointwise ops, group, count-as-sum) the push-down relies on; pushed-down table pinned to regenerated facts; distributed-vs-central oracle on the real engine.", "partial: the rewrite (distribute.go) itself is not modelled"),
+ "C10": ("Lean proofs of the union algebra (selection, range functions, pointwise ops, group, count-as-sum) the push-down relies on; max/min push-down is exact for any number of non-empty partitions (the replacement step is associative under the IEEE order laws, NaNs included), sum push-down under associativity of addition; pushed-down table pinned to regenerated facts; distributed-vs-central oracle on the real engine.", "partial: the rewrite (distribute.go) itself is not modelled"),
  "C11": ("Lean proofs: shard count irrelevant, merge order irrelevant (Perm), storage order irrelevant (Perm), unrelated series irrelevant.", "the Go scheduler is represented by the merge-order quantifier"),
  "C12": ("Lean: kernel-checked reachability of the pull/drain/consumer protocol (no write after close, no deadlock) for the regenerated features; regenerated fact that no package-level variable is written. Race detector run of concurrent queries validates.", "partial: memory accesses below the synchronisation skeleton are not modelled"),
  "C13": ("Lean: reachability proof that a panic below a pull goroutine never kills the process given the regenerated recover facts (and does without); the worker group never sends on a closed channel or closes twice under cancellation at any moment (exhaustive reachability); every go site recovers except drain and workers; invalid k handled; planning total. Child-process panic injection and parameter-edge streams validate.", "partial: data-dependent index panics inside worker tasks are covered by the runtime oracle only"),
